@@ -415,10 +415,14 @@ impl<'a> VisitMut for Norm<'a> {
             let mut before: Vec<Stmt> = vec![];
             let mut after: Vec<Stmt> = vec![];
             // statement-level macros
+            let mut macro_hoisted: Vec<Stmt> = vec![];
             if let Stmt::Macro(sm) = &s {
+                // closures / split receivers inside the macro's arguments are hoisted to just before this statement
+                let saved = std::mem::take(&mut self.hoisted);
                 if let Some(e) = self.rewrite_macro(&sm.mac.clone()) {
                     s = Stmt::Expr(e, Some(Default::default()));
                 }
+                macro_hoisted = std::mem::replace(&mut self.hoisted, saved);
             }
             if let Stmt::Local(l) = &s {
                 if let (Pat::Slice(ps), Some(init)) = (&l.pat, &l.init) {
@@ -501,6 +505,7 @@ impl<'a> VisitMut for Norm<'a> {
                 before.extend(self.anchor(&format!("loop{}.before", next_loop)));
                 after.extend(self.anchor(&format!("loop{}.after", next_loop)));
             }
+            b.stmts.extend(macro_hoisted);
             b.stmts.extend(mine);
             b.stmts.extend(before);
             b.stmts.push(s);
